@@ -18,6 +18,7 @@ EXTENDS Integers, Sequences, FiniteSets, TLC
 
 CONSTANTS Files,      \* file tables that exist initially, e.g. {"f1","f2"}
           NewFile,    \* a table name that does not exist initially (CREATE TABLE)
+          SubFile,    \* the file of the first table's name in the sub-directory: sub/f1.csv, or f1.csv while the repository is sub
           TempT,      \* name of the temporary table
           Keys, Vals, \* small integers used in generated statements
           MaxRows,
@@ -29,7 +30,7 @@ T(c, r) == [cols |-> c, rows |-> r, absent |-> FALSE]
 NotLoaded == [tbl |-> Absent, upd |-> FALSE, loaded |-> FALSE]
 Loaded(t, u) == [tbl |-> t, upd |-> u, loaded |-> TRUE]
 
-AllFiles == Files \cup {NewFile}
+AllFiles == Files \cup {NewFile, SubFile}
 Tables == AllFiles \cup {TempT}
 
 VARIABLES disk,    \* [AllFiles -> table]                committed contents
@@ -40,10 +41,11 @@ VARIABLES disk,    \* [AllFiles -> table]                committed contents
           ended,   \* BOOLEAN                            the run is over (script mode)
           envn,    \* Nat                                number of environment commits so far
           enc,     \* SUBSET AllFiles                    loaded files whose encoding attribute was set to Shift_JIS
+          cwd,     \* "top" | "sub"                      the directory table names are resolved in (SET @@REPOSITORY)
           out
 
-vars == <<disk, cache, dirty, created, temp, ended, envn, enc, out>>
-ViewNoOut == <<disk, cache, dirty, created, temp, ended, envn, enc>>
+vars == <<disk, cache, dirty, created, temp, ended, envn, enc, cwd, out>>
+ViewNoOut == <<disk, cache, dirty, created, temp, ended, envn, enc, cwd>>
 
 Ok == [k |-> "ok", e |-> "", vals |-> <<>>]
 Err(e) == [k |-> "err", e |-> e, vals |-> <<>>]
@@ -217,11 +219,12 @@ SameShapeUnlessAlter(t, t2) == t2.cols = t.cols
 (* The transaction                                                          *)
 
 Init ==
-  /\ disk = [f \in AllFiles |-> IF f \in Files THEN T(<<"id", "v">>, <<<<1, 1>>, <<2, 2>>>>) ELSE Absent]
+  /\ disk = [f \in AllFiles |-> IF f \in Files THEN T(<<"id", "v">>, <<<<1, 1>>, <<2, 2>>>>)
+                              ELSE IF f = SubFile THEN T(<<"id", "v">>, <<<<1, 4>>, <<3, 3>>>>) ELSE Absent]
   /\ cache = [f \in AllFiles |-> NotLoaded]
   /\ dirty = {} /\ created = {}
   /\ temp = [cur |-> T(<<"id", "v">>, <<>>), rp |-> T(<<"id", "v">>, <<>>)]
-  /\ ended = FALSE /\ envn = 0 /\ enc = {}
+  /\ ended = FALSE /\ envn = 0 /\ enc = {} /\ cwd = "top"
   /\ out = Ok
 
 HeldU == {f \in AllFiles : cache[f].loaded /\ cache[f].upd}
@@ -489,8 +492,18 @@ EnvCommit(f) ==
 Disk(f) == out' = (IF f \in created THEN Val(<<"CREATED">>) ELSE Val(Show(disk[f]))) /\ UNCHANGED <<disk, cache, dirty, created, temp, ended, envn, enc>>
 
 -----------------------------------------------------------------------------
-Do(a) ==
-  /\ ~ended
+\* Table names are resolved when the statement runs, in the repository of that moment: after SET @@REPOSITORY TO '<sub>'
+\* the name f1 means the file sub/f1.csv (SubFile) - a table of its own, whatever the transaction has loaded under that name
+\* before; from the top directory the same file is `sub/f1.csv`.  In the sub-directory only f1 and the temporary table have names.
+Res(t) == IF cwd = "sub" /\ t = "f1" THEN SubFile ELSE t
+Sayable(a) ==
+  IF cwd = "top" THEN TRUE
+  ELSE \/ a.act \in {"env", "disk", "commit", "rollback", "chdir", "callnoop", "nestexec", "nestsource", "nestprep"}
+       \/ /\ a.t \in {"f1", TempT, ""} /\ a.u \in {"f1", TempT, ""}
+          /\ a.act \notin {"create", "createas", "selectpath", "insertpath"}
+Chdir(k) == cwd' = (IF k = 1 THEN "sub" ELSE "top") /\ out' = Ok /\ UNCHANGED <<disk, cache, dirty, created, temp, ended, envn, enc>>
+
+DoRes(a) ==
   /\ CASE a.act = "select"   -> Select(a.t)
        [] a.act = "insert1"  -> Insert1(a.t, a.k, a.x)
        [] a.act = "insert2"  -> Insert2(a.t, a.k, a.x)
@@ -537,6 +550,13 @@ Do(a) ==
        [] a.act = "env"      -> EnvCommit(a.t)
        [] a.act = "disk"     -> Disk(a.t)
 
+Do(a) ==
+  /\ ~ended
+  /\ Sayable(a)
+  /\ IF a.act = "chdir" THEN Chdir(a.k)
+     ELSE /\ DoRes(IF a.act \in {"env", "disk"} THEN a ELSE [a EXCEPT !.t = Res(@), !.u = Res(@)])
+          /\ UNCHANGED cwd
+
 A(act, t, k, x) == [act |-> act, t |-> t, k |-> k, x |-> x, u |-> ""]
 A2(act, t, u) == [act |-> act, t |-> t, k |-> 0, x |-> 0, u |-> u]
 A3(act, u, k) == [act |-> act, t |-> "", k |-> k, x |-> 0, u |-> u]
@@ -564,7 +584,8 @@ Actions ==
   \cup {A3("createas", u, k) : u \in Tables \ {NewFile}, k \in 0..3}
   \cup {[act |-> x, t |-> t, u |-> u, k |-> k, x |-> 0] : x \in {"updatetwo", "deletetwo"}, t \in AllFiles, u \in AllFiles, k \in Keys \cup {7}}
   \cup {A(x, "", 0, 0) : x \in {"callnoop", "nestexec", "nestsource", "nestprep"}}
-  \cup {A("callins", t, k, 0) : t \in Tables \ {NewFile}, k \in Keys}
+  \cup {A("callins", t, k, 0) : t \in Tables \ {NewFile, SubFile}, k \in Keys}
+  \cup {A("chdir", "", k, 0) : k \in {0, 1}}
   \cup {A(x, "", 0, 0) : x \in {"create", "commit", "rollback"}}
   \cup {A("env", f, 0, 0) : f \in Files}
   \cup {A("disk", f, 0, 0) : f \in AllFiles}
